@@ -1,2 +1,18 @@
 #!/bin/sh
-exit 0
+# offline setup: check tools, generate defs.h, warm the AST cache, build the sanitizer library used by replays
+set -e
+cd "$(dirname "$0")"
+clang++ --version >/dev/null
+python3-vt -c "import z3; print('z3', z3.get_version_string())"
+python3-vt - <<'PY'
+import sys
+sys.path.insert(0, '.')
+from engine import astdb, run
+from engine import spec as S
+run.load_contracts()
+tus = sorted({S.REGISTRY[k].tu for k in S.ORDER if S.REGISTRY[k].tu})
+import multiprocessing as mp
+with mp.Pool(8) as p:
+    p.map(astdb.load_tu_quiet, tus)
+print('AST cache warmed for', len(tus), 'translation units')
+PY
